@@ -18,6 +18,8 @@ MODEL_BIN = os.path.join(OCAML, '_build', 'default', 'model_svc.exe')
 IMPL_BIN = {'debug': os.path.join(HARNESS, 'target', 'debug', 'impl_svc'),
             'release': os.path.join(HARNESS, 'target', 'release', 'impl_svc')}
 NCPU = os.cpu_count() or 4
+BIN_TARGET = os.path.join(HARNESS, 'target', 'repo-bins')
+os.environ['RNT_BIN_DIR'] = os.path.join(BIN_TARGET, 'debug')
 ENV = dict(os.environ, CARGO_NET_OFFLINE='true')
 
 # ---------------------------------------------------------------- terms
@@ -155,7 +157,7 @@ def build_ocaml():
         rc, out = sh('./gen_ops_all.sh && dune build ./model_svc.exe 2>&1', cwd=OCAML, timeout=1800)
         if rc: raise BuildError('dune build failed:\n' + out[-6000:])
 
-def build_harness(profiles=('debug',)):
+def build_harness(profiles=('debug',), bins=False):
     """Rebuilds impl_svc against /repo's current working tree (path dependency, hooks on)."""
     with Lock('cargo'):
         lock = os.path.join(HARNESS, 'Cargo.lock')
@@ -165,6 +167,11 @@ def build_harness(profiles=('debug',)):
             flag = '--release' if prof == 'release' else ''
             rc, out = sh('cargo build --offline %s 2>&1' % flag, cwd=HARNESS, timeout=3000)
             if rc: raise BuildError('cargo build (%s) failed:\n%s' % (prof, out[-6000:]))
+        if bins:
+            # /repo's own binaries (CLI glue), built outside /repo
+            rc, out = sh('cargo build --offline --manifest-path /repo/Cargo.toml --bins --features verif-hooks --target-dir %s 2>&1' % BIN_TARGET,
+                         cwd=HARNESS, timeout=3000)
+            if rc: raise BuildError('cargo build of /repo binaries failed:\n%s' % out[-6000:])
 
 # ---------------------------------------------------------------- services
 
